@@ -34,7 +34,7 @@ def run(seed, tier, lean) -> Result:
     def nontrivial(kinds, ops):
         return 'prune' in kinds and sum(1 for o in ops if o['k'] == 'add_node' and o['type'] in ('or', 'and')
                                         and not (o['viable'] and o['necessary'])) >= 2
-    res = run_histories('C13', seed, tier, lean, WEIGHTS, step_oracle, nontrivial, quick_n=400, thorough_n=20000)
+    res = run_histories('C13', seed, tier, lean, WEIGHTS, step_oracle, nontrivial, quick_n=400, thorough_n=2400)
     res.rule = ('random labelled graphs (self-loops, duplicate edges, attackers) built by add_node/link/set_labels, '
                 'pruned one or more times; after each prune: no prunable node left, every other node kept with '
                 'its labels, structure consistent; state compared with the Lean model; non-trivial = at least two '
